@@ -178,7 +178,7 @@ func TestC15(t *testing.T) {
 			if op.Kind == "run" {
 				op.Int = core.FlagDefault
 			}
-			if op.Kind == "truncate-pem" || op.Kind == "foreign-pem" || op.Kind == "strip-key" || op.Kind == "strip-cert" {
+			if op.Kind == "truncate-pem" || op.Kind == "foreign-pem" || op.Kind == "strip-key" || op.Kind == "strip-cert" || op.Kind == "corrupt-key" {
 				continue
 			}
 			c.Pre = append(c.Pre, op)
